@@ -116,13 +116,15 @@ def _exit(run, P):
         site = lp
         ln = g.node_of(lp)
         after = not g.always_preceded([ln], [lab_cfg])
-        it_ok = isinstance(lp.iter, ast.Call) and dotted(lp.iter.func) == "sorted" \
-            and "sym_table.items()" in ast.unparse(lp.iter)
+        from .util import find, first, has
+        tb = first("V_t = self.sym_kind_table.per_phase_table.get(self.current_function, ANY)", f.node)
+        tbl_ok = tb[0] is not None
+        it_ok = tbl_ok and norm(lp.iter) == f"sorted({tb[1]['V_t']}.items())"
         body_ok = len(lp.body) == 1 and isinstance(lp.body[0], ast.Expr) \
-            and dotted(lp.body[0].value.func) == "self.emit_variable_deinit"
-        tbl_ok = any(isinstance(s, ast.Assign) and "per_phase_table.get(" in ast.unparse(s.value)
-                     and "self.current_function" in ast.unparse(s.value)
-                     for s in func_body_stmts(f.node))
+            and isinstance(lp.body[0].value, ast.Call) \
+            and dotted(lp.body[0].value.func) == "self.emit_variable_deinit" \
+            and isinstance(lp.target, ast.Tuple) \
+            and [dotted(a_) for a_ in lp.body[0].value.args] == [dotted(t_) for t_ in lp.target.elts]
         ok = after and it_ok and body_ok and tbl_ok
     run.ob("C12.exit", f, site, ok,
            construct="after the exit label: for every (identifier, kind) of the phase's "
@@ -188,7 +190,10 @@ def _alloc(run, P):
         for t in ast.walk(f.node):
             if isinstance(t, ast.If) and any(x is n.ast for b in t.body for x in ast.walk(b)):
                 par = t
-        if par is not None and norm(par.test) == "not isinstance(sym_kind, UserType)":
+        if par is not None and isinstance(par.test, ast.UnaryOp) \
+                and isinstance(par.test.op, ast.Not) and isinstance(par.test.operand, ast.Call) \
+                and dotted(par.test.operand.func) == "isinstance" \
+                and norm(par.test.operand.args[1]) == "UserType":
             non_user.append(n)
     user_inner = [n for n in inner if n not in non_user]
     bad = g.always_preceded(user_inner, chk)
@@ -218,50 +223,96 @@ def _alloc(run, P):
            why="the callee writes into the assignee's storage")
 
 
+def _events(stmts):
+    """Emission events of a statement list in source order (names of locals
+    do not matter): if:<condition text>, else, alloc, dealloc, nullify,
+    alloc_refcount, emit:<text>."""
+    ev = []
+
+    def cond_text(e):
+        if isinstance(e, ast.BinOp) and isinstance(e.op, ast.Mod):
+            return string_value(e.left) or "?"
+        return string_value(e) or "?"
+
+    def visit(n):
+        if isinstance(n, ast.With):
+            for it in n.items:
+                c = it.context_expr
+                if isinstance(c, ast.Call) and dotted(c.func) == "FortranIfEmitter" and len(c.args) >= 2:
+                    ev.append("if:" + cond_text(c.args[1]))
+            for b_ in n.body:
+                visit(b_)
+            ev.append("endif")
+            return
+        if isinstance(n, ast.Expr) and isinstance(n.value, ast.Call):
+            c = n.value
+            d = dotted(c.func) or ""
+            if d.endswith(".emit_else"):
+                ev.append("else")
+            elif d == "self.emit_allocate_refcount":
+                ev.append("alloc_refcount")
+            elif d in ("self.emit_traceable", "self.emit") and c.args:
+                t = string_value(c.args[0])
+                if t:
+                    ev.append("emit:" + t)
+            elif isinstance(c.func, ast.Call):
+                inner = dotted(c.func.func) or ""
+                if inner == "AllocationEmitter":
+                    ev.append("alloc")
+                elif inner == "DeallocationEmitter":
+                    ev.append("dealloc")
+                elif inner == "InitializationEmitter":
+                    ev.append("nullify")
+            return
+        for fld in ("body", "orelse"):
+            for c in getattr(n, fld, []) or []:
+                if isinstance(c, ast.stmt):
+                    visit(c)
+
+    for s_ in stmts:
+        visit(s_)
+    return ev
+
+
 def _routines(run, P):
     f = P.func(f"{GEN}.begin_emit")
-    src = ast.unparse(f.node)
-    # alloc check
-    a = src.find("get_alloc_check_name(utype_id)")
-    d = src.find("get_var_deinit_name(utype_id)")
-    if a < 0 or d < 0 or d < a:
+    loops = [n for n in ast.walk(f.node) if isinstance(n, ast.For)
+             and "sorted(" in ast.unparse(n.iter)]
+    alloc_loop = deinit_loop = None
+    for lp in loops:
+        src = ast.unparse(lp)
+        if "self.get_alloc_check_name(" in src:
+            alloc_loop = lp
+        if "self.get_var_deinit_name(" in src:
+            deinit_loop = lp
+    if alloc_loop is None or deinit_loop is None:
         raise AnalysisError("begin_emit: memory management routines not found")
-    alloc_src, deinit_src = src[a:d], src[d:]
-
-    def order(text, *needles):
-        pos = -1
-        for n in needles:
-            p = text.find(n, pos + 1)
-            if p < 0:
-                return False
-            pos = p
-        return True
-
-    ok = order(alloc_src, "'.not.associated(%s)' % val_name", "AllocationEmitter(self)(ftype, val_name, {})",
-               "self.emit_allocate_refcount('refcount')", "emit_if.emit_else()",
-               "'refcount.ne.1'", "'refcount = refcount - 1'",
-               "AllocationEmitter(self)(ftype, val_name, {})",
-               "self.emit_allocate_refcount('refcount')")
-    run.ob("C12.deinit", f, f.node, ok,
-           construct="alloc check: unassociated -> allocate + new count; shared "
-                     "(count != 1) -> decrement, allocate anew, new count",
+    ev = [e for e in _events(alloc_loop.body) if e]
+    want = ["if:.not.associated(%s)", "alloc", "alloc_refcount", "else",
+            "if:refcount.ne.1", "emit:refcount = refcount - 1", "alloc", "alloc_refcount",
+            "endif", "endif"]
+    got = [e for e in ev if not (e.startswith("emit:") and e == "emit:")]
+    run.ob("C12.deinit", f, alloc_loop, got == want,
+           construct=f"alloc check events: {got}",
            why="copy-on-write: writing into storage that is still referenced elsewhere "
                "changes the other variable; not decrementing leaks the shared block")
-    ok = order(deinit_src, "'associated(%s)' % val_name", "'refcount.eq.1'",
-               "DeallocationEmitter(self, InitializationEmitter(self))(ftype, val_name, {})",
-               "'deallocate(refcount)'", "if_emit.emit_else()",
-               "InitializationEmitter(self)(ftype, val_name, {})",
-               "'refcount = refcount - 1'")
-    run.ob("C12.deinit", f, f.node, ok,
-           construct="deinit: only if associated; last reference -> deallocate payload "
-                     "and count; otherwise nullify and decrement",
+    ev = [e for e in _events(deinit_loop.body) if e]
+    want = ["if:associated(%s)", "if:refcount.eq.1", "dealloc", "emit:deallocate(refcount)",
+            "else", "nullify", "emit:refcount = refcount - 1", "endif", "endif"]
+    run.ob("C12.deinit", f, deinit_loop, ev == want,
+           construct=f"deinit events: {ev}",
            why="releasing a block twice, releasing an unassociated pointer, or not "
                "nullifying after release (the exit epilogue releases again)")
     de = P.func("dagrt.codegen.fortran.DeallocationEmitter.visit_PointerType")
-    s2 = ast.unparse(de.node)
-    ok = order(s2, "deallocate(", "'nullify(%s)'")
+    texts = []
+    for x in sorted((n for n in ast.walk(de.node) if isinstance(n, ast.Call)
+                     and (dotted(n.func) or "").endswith("emit_traceable") and n.args),
+                    key=lambda n: (n.lineno, n.col_offset)):
+        t = string_prefix(x.args[0]) or ""
+        texts.append(t.split("(")[0])
+    ok = texts == ["deallocate", "nullify"]
     run.ob("C12.deinit", de, de.node, ok,
-           construct="DeallocationEmitter: deallocate then nullify",
+           construct=f"DeallocationEmitter emits {texts}",
            why="a dangling pointer would look associated to the next deinit")
 
 
@@ -270,10 +321,13 @@ def _init_shutdown(run, P):
     loops = [n for n in ast.walk(f.node) if isinstance(n, ast.For) and any(
         isinstance(x, ast.Call) and dotted(x.func) == "self.emit_variable_init"
         for x in ast.walk(n))]
+    from .util import find, first, has
     ok = False
     if loops:
         lp = loops[0]
-        ok = "sorted(sym_table.items())" == norm(lp.iter) and len(lp.body) == 1
+        tb = first("V_t = self.sym_kind_table.per_phase_table.get(phase_id, ANY)", f.node)
+        ok = tb[0] is not None and f"sorted({tb[1]['V_t']}.items())" == norm(lp.iter) \
+            and len(lp.body) == 1
     run.ob("C12.init", f, loops[0] if loops else f.node, ok,
            construct="function entry: emit_variable_init for every symbol-table entry, no filter",
            why="a user-type local that is not nullified looks associated to the "
@@ -306,11 +360,23 @@ def _init_shutdown(run, P):
 
 def _lastuse(run, P):
     f = P.func("dagrt.codegen.analysis.var_to_last_dependent_statement_mapping")
-    src = ast.unparse(f.node)
+    from .util import find, first, has
     filt = [n for n in ast.walk(f.node) if isinstance(n, (ast.Continue, ast.Break))
             or (isinstance(n, ast.If))]
-    ok = not filt and "get_read_variables()" in src and "get_written_variables()" in src \
-        and "tbl[variable, name] = statement.id" in src
+    ok = not filt
+    if ok:
+        ok = False
+        for lp_ in ast.walk(f.node):
+            if isinstance(lp_, ast.For) and isinstance(lp_.target, ast.Name):
+                st = lp_.target.id
+                u_ = first(f"V_u = {st}.get_read_variables().union({st}.get_written_variables())", lp_)
+                if u_[0] is None:
+                    u_ = first(f"V_u = {st}.get_read_variables() | {st}.get_written_variables()", lp_)
+                if u_[0] is not None:
+                    for il in ast.walk(lp_):
+                        if isinstance(il, ast.For) and dotted(il.iter) == u_[1]["V_u"] \
+                                and isinstance(il.target, ast.Name):
+                            ok = has(f"V_tbl[{il.target.id}, V_name] = {st}.id", il)
     run.ob("C12.lastuse", f, filt[0] if filt else f.node, ok,
            construct="every statement of every list updates the table for every read "
                      "or written variable (no filter)",
@@ -319,9 +385,8 @@ def _lastuse(run, P):
                "yield moves from freed storage")
     # statements come in emission order
     call = P.func(f"{GEN}.__call__")
-    csrc = ast.unparse(call.node)
-    ok = "var_to_last_dependent_statement_mapping([fd.name for fd in fdescrs], " \
-         "[get_statements_in_ast(fd.ast) for fd in fdescrs])" in csrc
+    ok = has("var_to_last_dependent_statement_mapping([V_a.name for V_a in V_fd], "
+             "[get_statements_in_ast(V_b.ast) for V_b in V_fd])", call.node)
     run.ob("C12.lastuse", call, call.node, ok,
            construct="table built from the statements of the final ASTs in emission order",
            why="'last' must mean last in the emitted code")
@@ -354,9 +419,19 @@ def _lastuse(run, P):
            construct="emit_for_begin increments and emit_for_end decrements the nesting depth",
            why="an unpaired counter suppresses every release after the first loop, "
                "or none inside nested loops")
-    src = ast.unparse(d.node)
-    ok = "inst.id == last_used_stmt_id and (not is_state_variable(variable))" in src \
-        or "inst.id == last_used_stmt_id and not is_state_variable(variable)" in src
+    inst = d.params[1]
+    ok = False
+    for n_ in ast.walk(d.node):
+        if isinstance(n_, ast.If) and isinstance(n_.test, ast.BoolOp) \
+                and isinstance(n_.test.op, ast.And) and len(n_.test.values) == 2:
+            m1_ = first(f"{inst}.id == V_last", n_.test.values[0])
+            m2_ = first("not is_state_variable(V_var)", n_.test.values[1])
+            if m1_[0] is not None and m2_[0] is not None \
+                    and has(f"V_last = self.last_used_stmt_table[V_var, self.current_function]",
+                            d.node, {"V_last": m1_[1]["V_last"], "V_var": m2_[1]["V_var"]}) \
+                    and has(f"self.emit_variable_deinit(V_var, ANY)", n_.body[0],
+                            {"V_var": m2_[1]["V_var"]}):
+                ok = True
     run.ob("C12.lastuse", d, d.node, ok,
            construct="release only when this statement is the last use and the variable "
                      "is not persistent",
